@@ -749,15 +749,9 @@ def r3_delimiter(run):
                 else:
                     g['reads'] = {**g.get('reads', {}), key: (val, g['clock'])}
 
-            def failure_arm(env, n, f=f, cfg=cfg):
-                """Clause: DelimiterError leaves the cursor where it was -- the bytes compared with the delimiter were looked at, not taken."""
-                q = _delimiter_question(n.ast)
-                if q is None:
-                    return
-                operand, raises_when = q
-                arm = _raise_arm(cfg, p, f, n.id, 'T' if raises_when else 'F', 'DelimiterError')
-                if arm is None:
-                    return
+            def provenance(env, operand, f=f):
+                """(consuming call | None, clock of that call) for the bytes `operand` that are compared with the delimiter,
+                evaluated where the comparison is evaluated; 'unknown' when it is not decided."""
                 while isinstance(operand, ast.Subscript):       # a slice of what was fetched
                     operand = strip_await(operand.value)
                 call, at = consuming_call(operand), None
@@ -774,9 +768,13 @@ def r3_delimiter(run):
                             call, at = rhs[0], -1
                         elif any(rhs):
                             v.unknown('%s: `%s` compared with the delimiter is bound to a consuming read on some paths only' % (f.qual, operand.id))
-                            return
+                            return 'unknown'
                 elif call is not None:
-                    at = env.ghost.get('clock', 0) + 1          # evaluated by this very test
+                    at = env.ghost.get('clock', 0) + 1          # evaluated by this very test / binding
+                return call, at
+
+            def failure_verdict(env, question, arm, call, at, f=f):
+                """Clause: DelimiterError leaves the cursor where it was -- the bytes compared with the delimiter were looked at, not taken."""
                 if call is not None:
                     undo = [m for m in env.ghost.get('moves', ()) if at >= 0 and m > at] or [
                         b for b in arm[1] if any(isinstance(x, ast.Attribute) and isinstance(x.ctx, ast.Store) and dotted(x) in (BPOS, BUF, BLEN) for x in b.walk())
@@ -785,17 +783,132 @@ def r3_delimiter(run):
                         v.unknown('%s: the bytes compared with the delimiter come from the consuming `%s` and the cursor is moved again before '
                                   '`%s`: whether the read is undone is not decided' % (f.qual, short(call, 40), short(arm[0].ast, 40)))
                         return
-                v.note(f, 'failed check consumes nothing @%s' % short(n.ast, 60),
+                v.note(f, 'failed check consumes nothing @%s' % short(question, 60),
                        'the bytes compared with the delimiter are looked at, not taken: on the path to `raise DelimiterError` no consuming read of this method '
-                       'has produced the compared bytes (the cursor is where it was when the check began)', call is None, n.ast,
+                       'has produced the compared bytes (the cursor is where it was when the check began)', call is None, question,
                        '`%s` has already moved the cursor over the compared bytes when the comparison fails and DelimiterError is raised'
                        % (short(call, 50) if call is not None else ''), env.ghost.get('wit'),
                        'BufferedReader(BytesIO(b"a" * 300 + b"XYZ" + b"--tail").read, 400, 2): read_until(b"--", 257, consume_delimiter=True) raises DelimiterError '
                        'having swallowed 2 ordinary bytes; the next read() starts 2 bytes late')
 
+            def failure_arm(env, n, f=f, cfg=cfg):
+                q = _delimiter_question(n.ast)
+                if q is None:
+                    return
+                operand, raises_when = q
+                arm = _raise_arm(cfg, p, f, n.id, 'T' if raises_when else 'F', 'DelimiterError')
+                if arm is None:
+                    return
+                pr = provenance(env, operand)
+                if pr != 'unknown':
+                    failure_verdict(env, n.ast, arm, pr[0], pr[1])
+
+            # --- the verification bound ONCE to a boolean local (k4-c13-2: `delimiter_follows = self.peek(n) == delimiter` in one arm,
+            #     `delimiter_follows = self._buffer_pos == delimiter_pos` in the other, then the guard clause `if not delimiter_follows:
+            #     raise DelimiterError`).  The local stands for the comparison as it was evaluated at the binding on THIS path: what it
+            #     compared (peek amount / consuming read / cursor position) is recorded there, and the branch on the local is read as the
+            #     branch on that comparison.  Any other store to the name ends it; a cursor move between binding and branch is not decided.
+            def flag_binding(env, n):
+                a = n.ast
+                if isinstance(a, ast.Assign) and len(a.targets) == 1 and isinstance(a.targets[0], ast.Name):
+                    name, value = a.targets[0].id, a.value
+                elif isinstance(a, ast.AnnAssign) and isinstance(a.target, ast.Name) and a.value is not None:
+                    name, value = a.target.id, a.value
+                else:
+                    return None
+                value = strip_await(value)
+                while isinstance(value, ast.IfExp):             # `flag = (peek(n) == d) if pos < 0 else (cursor == pos)`: the arm of this path
+                    d = env.decide(value.test)
+                    if d is None:
+                        break
+                    value = strip_await(value.body if d else value.orelse)
+                clock = env.ghost.get('clock', 0)
+                q = _delimiter_question(value)
+                if q is not None:
+                    operand, not_delim_when = q
+                    base = operand
+                    while isinstance(base, ast.Subscript):
+                        base = strip_await(base.value)
+                    pr = provenance(env, operand)
+                    amt = None
+                    if consuming_call(base) is None:            # (a consuming read is not evaluated twice; it verifies nothing that is still in front of the cursor)
+                        val = env.eval(operand)
+                        amt = env.ghost.get('peeks', {}).get(val.lone()) if isinstance(val, Lin) else None
+                    return name, {'kind': 'delim', 'neg_when': not_delim_when, 'amt': amt, 'prov': pr, 'value': value, 'clock': clock}
+                t, neg = value, False
+                while isinstance(t, ast.UnaryOp) and isinstance(t.op, ast.Not):
+                    t, neg = t.operand, not neg
+                if isinstance(t, ast.Compare) and len(t.ops) == 1 and isinstance(t.ops[0], (ast.Eq, ast.NotEq)) \
+                        and BPOS in [dotted(strip_await(x)) for x in (t.left, t.comparators[0])]:
+                    return name, {'kind': 'pos', 'neg_when': isinstance(t.ops[0], ast.NotEq) != neg, 'value': value, 'clock': clock}
+                mentions = any(dotted(x) in (DELIM, BPOS) for x in ast.walk(value) if isinstance(x, (ast.Name, ast.Attribute))) or any(
+                    isinstance(c, ast.Call) and isinstance(c.func, ast.Attribute) and c.func.attr in _NON_CONSUMING for c in ast.walk(value))
+                if mentions and any(isinstance(x, (ast.Compare, ast.BoolOp, ast.IfExp)) or isinstance(x, ast.Call) and isinstance(x.func, ast.Attribute)
+                                    and x.func.attr in ('startswith', 'endswith') for x in ast.walk(value)):
+                    return name, {'kind': 'unread', 'value': value, 'clock': clock}
+                return None
+
+            def track_flags(env, n, label):
+                flags = env.ghost.get('flags', {})
+                stored = {x.id for x in n.walk() if isinstance(x, ast.Name) and isinstance(x.ctx, (ast.Store, ast.Del))}
+                if n.kind == 'handler' and getattr(n.ast, 'name', None):
+                    stored.add(n.ast.name)
+                if stored & set(flags):
+                    flags = {k: w for k, w in flags.items() if k not in stored}
+                if n.kind == 'stmt' and label != 'exc':
+                    b = flag_binding(env, n)
+                    if b is not None:
+                        flags = {**flags, b[0]: b[1]}
+                env.ghost['flags'] = flags
+
+            def flag_question(env, n, f=f):
+                """(record, truth value of the test for which the recorded comparison says "not the delimiter" / "not at the position") for
+                a test that is a flag local under any number of `not`; None otherwise."""
+                t, neg = n.ast, False
+                while isinstance(t, ast.UnaryOp) and isinstance(t.op, ast.Not):
+                    t, neg = t.operand, not neg
+                if not isinstance(t, ast.Name):
+                    return None
+                w = env.ghost.get('flags', {}).get(t.id)
+                if w is None:
+                    bound_to_check = any(
+                        isinstance(x, (ast.Assign, ast.AnnAssign)) and getattr(x, 'value', None) is not None
+                        and any(isinstance(y, ast.Name) and y.id == t.id for y in (x.targets if isinstance(x, ast.Assign) else [x.target]))
+                        and any(_delimiter_question(y) is not None or isinstance(y, ast.Compare) and BPOS in [dotted(strip_await(z)) for z in [y.left] + y.comparators]
+                                for y in ast.walk(x.value)) for x in walk_self(f.node))
+                    val = env.eval(t)
+                    if bound_to_check and isinstance(val, Lin) and val.lone() == ('v', t.id) \
+                            and any(_raises(cfg, p, f, n.id, l, 'DelimiterError') for l in ('T', 'F')):
+                        v.unknown('%s: `%s` decides `raise DelimiterError` but is not bound on this path segment (bound in front of a loop?)' % (f.qual, t.id))
+                    return None
+                if w['kind'] == 'unread':
+                    if any(_raises(cfg, p, f, n.id, l, 'DelimiterError') for l in ('T', 'F')):
+                        v.unknown('%s: `%s = %s` decides `raise DelimiterError`; the verification it stands for is not read' % (f.qual, t.id, short(w['value'], 60)))
+                    return None
+                return w, w['neg_when'] != neg
+
+            def flag_stale(env, w, name, f=f):
+                if any(m > w['clock'] for m in env.ghost.get('moves', ())):
+                    v.unknown('%s: the cursor / buffer is stored between `%s = %s` and the branch on it: whether the verification still holds is not decided'
+                              % (f.qual, name, short(w['value'], 60)))
+                    return True
+                return False
+
+            def flag_failure_arm(env, n, f=f, cfg=cfg):
+                fq = flag_question(env, n)
+                if fq is None or fq[0]['kind'] != 'delim':
+                    return
+                w, raises_when = fq
+                arm = _raise_arm(cfg, p, f, n.id, 'T' if raises_when else 'F', 'DelimiterError')
+                if arm is None or w['prov'] == 'unknown':
+                    return
+                failure_verdict(env, w['value'], arm, w['prov'][0], w['prov'][1])
+
             def on_node(env, n, label):
                 if n.kind == 'test' and label in ('T', 'F'):
                     failure_arm(env, n)
+                    flag_failure_arm(env, n)
+                track_flags(env, n, label)
                 if n.kind == 'stmt' and label != 'exc' and any(isinstance(x, ast.Attribute) and isinstance(x.ctx, ast.Store) and dotted(x) in (BPOS, BUF, BLEN) for x in n.walk()):
                     tick(env, 'move')
                 if n.kind == 'test' and label in ('T', 'F'):
@@ -807,6 +920,14 @@ def r3_delimiter(run):
                             amt = env.ghost.get('peeks', {}).get(val.lone()) if isinstance(val, Lin) else None
                             if amt is not None:
                                 env.ghost['peeked'] = env.ghost.get('peeked', ()) + (amt,)
+                        elif q is None and flag_question(env, n) is not None:
+                            w, neg_truth = flag_question(env, n)
+                            name = next(x.id for x in ast.walk(n.ast) if isinstance(x, ast.Name))
+                            if neg_truth == (other == 'T') and not flag_stale(env, w, name):    # the "not the delimiter" value of the local raises
+                                if w['kind'] == 'pos':
+                                    env.ghost['pos_checked'] = True
+                                elif w['amt'] is not None:
+                                    env.ghost['peeked'] = env.ghost.get('peeked', ()) + (w['amt'],)
                         elif q is None:
                             t, neg = n.ast, False
                             while isinstance(t, ast.UnaryOp) and isinstance(t.op, ast.Not):
